@@ -10,6 +10,7 @@ import functools
 import numpy as np
 import z3
 from pvc import values as V
+from pvc.values import Cx  # noqa: F401
 from pvc.values import CArr, LArr, Obj, PyExc
 from pvc.arrays import to_carr, matmul, elementwise
 from pvc.runner import harness
@@ -245,7 +246,7 @@ def dense_scatter_spec(dofconn, K, x, n):
 
 GRIDS = [((2, 1, 0), 1), ((2, 2, 0), 2), ((1, 1, 1), 1), ((2, 1, 1), 1)]
 
-for (_size, _ndof), _bc, _mt in itertools.product(GRIDS, ('none', 'some', 'empty'), ('csc', 'csr')):
+for (_size, _ndof), _bc, _mt in list(itertools.product(GRIDS, ('none', 'some', 'empty'), ('csc', 'csr'))) + [(((2, 1, 0), 1), 'some', 'csc-complex-x'), (((2, 1, 0), 1), 'none', 'csc-complex-x')]:
     if _mt == 'csr' and _bc != 'some':
         continue
 
@@ -263,8 +264,12 @@ for (_size, _ndof), _bc, _mt in itertools.product(GRIDS, ('none', 'some', 'empty
         nel = it.getattr(dom, 'nel')
         nn = it.getattr(dom, 'nnodes')
         n = ndof * nn
-        xs = [ctx.sym(f'x{e}', 'real') for e in range(nel)]
-        x = to_carr(xs)
+        cx_x = mt.endswith('complex-x')          # complex scaling vector (e.g. a complex-valued material interpolation): the matrix is complex
+        mt = mt.split('-')[0]
+        xs = [Cx(ctx.sym(f'x{e}r', 'real'), ctx.sym(f'x{e}i', 'real')) if cx_x else ctx.sym(f'x{e}', 'real') for e in range(nel)]
+        x = CArr(to_carr(xs).data, 'complex') if cx_x else to_carr(xs)
+        if cx_x:
+            ctx.safety_on = True                 # storing a complex value into a real buffer is a (silent) loss of the imaginary part
         conn = np.array([[int(v) for v in row] for row in it.getattr(dom, 'conn').data.tolist()])
         dofconn = (conn[:, :, None] * ndof + np.arange(ndof)[None, None, :]).reshape(nel, -1)
         bcs = {'none': None, 'empty': [], 'some': [n - 1, 0, ndof]}[bc]
